@@ -111,7 +111,7 @@ func c15Run(c c15Case) (V, Verdict) {
 		}
 	}
 	var errs VL
-	var stale []string // reported last: a known cause must not hide another failure of the same case
+	var stale []string         // reported last: a known cause must not hide another failure of the same case
 	offered := map[int][]cdc{} // every codec of every section handed to the engine, by kind
 	anyErr := false
 	nExact, nPartial := 0, 0
